@@ -141,8 +141,14 @@ def mutate(rng, text, keep_head=0):
     tail_nl = lines and lines[-1] == ''
     if tail_nl: lines = lines[:-1]
     head, body = lines[:keep_head], lines[keep_head:]
-    k = rng.randrange(5)
-    if k == 0 and body:
+    k = rng.randrange(7)
+    if k == 5:
+        # whitespace is content: trailing blanks / tabs on a changed or added line (a Markdown hard break), blank lines at the end
+        body.insert(rng.randrange(len(body) + 1), rng.choice(['hard break  ', 'tab\t', ' lead and trail \t ', '']))
+        if rng.random() < 0.5: body += ['', '']
+    elif k == 6 and body:
+        i = rng.randrange(len(body)); body[i] = body[i] + rng.choice(['  ', '\t', ' '])
+    elif k == 0 and body:
         i = rng.randrange(len(body)); body[i] = body[i].upper() + 'x'
     elif k == 1:
         body.insert(rng.randrange(len(body) + 1), 'ins%d' % rng.randrange(9))
